@@ -102,10 +102,19 @@ fn construct<A: Algebra>(op: &Op<A>) -> (Segtree<A::Item, A::Mod>, Vec<A::Elem>)
 }
 
 fn gen_construct<A: Algebra>(rng: &mut Rng, n: usize, nonneg: bool) -> Op<A> {
-    match rng.below(3) {
-        0 => Op::New(n, A::gen_elem(rng, nonneg)),
-        1 => Op::FromSlice((0..n).map(|_| A::gen_elem(rng, nonneg)).collect()),
-        _ => Op::FromIter((0..n).map(|_| A::gen_elem(rng, nonneg)).collect()),
+    let elems = |rng: &mut Rng| -> Vec<A::Elem> {
+        (0..n)
+            .map(|i| {
+                let mut e = A::gen_elem(rng, nonneg);
+                A::at(&mut e, i);
+                e
+            })
+            .collect()
+    };
+    match rng.below(if A::positional() { 2 } else { 3 }) {
+        0 => Op::FromSlice(elems(rng)),
+        1 => Op::FromIter(elems(rng)),
+        _ => Op::New(n, A::gen_elem(rng, nonneg)),
     }
 }
 
@@ -423,7 +432,12 @@ fn gen_op<A: Algebra>(rng: &mut Rng, live: &Live<A>, judge: Judge, nonneg: bool,
         Judge::Search => [14, 40, 4, 20, 20, 3],
     };
     match rng.weighted(&w) {
-        0 => Op::Set(rng.usize_below(n), A::gen_elem(rng, nonneg)),
+        0 => {
+            let i = rng.usize_below(n);
+            let mut e = A::gen_elem(rng, nonneg);
+            A::at(&mut e, i);
+            Op::Set(i, e)
+        }
         1 => {
             let (l, r) = gen_range(rng, n);
             Op::Modify(l, r, A::gen_mod(rng, nonneg))
@@ -439,7 +453,7 @@ fn gen_op<A: Algebra>(rng: &mut Rng, live: &Live<A>, judge: Judge, nonneg: bool,
             match rng.below(6) {
                 0 => Op::RecycleSlice,
                 1 => Op::RecycleIter,
-                2 => Op::RecycleNew(rng.usize_below(n), n2.min(129)),
+                2 if !A::positional() => Op::RecycleNew(rng.usize_below(n), n2.min(129)),
                 _ => gen_construct::<A>(rng, n2, nonneg),
             }
         }
@@ -699,6 +713,11 @@ macro_rules! for_each_algebra {
         $mac!(MinAddI32, 2);
         $mac!(MaxAddI32, 2);
         $mac!(SumAddI32, 2);
+        $mac!(MinAddI64Sent, 2);
+        $mac!(MaxAddI64Sent, 2);
+        $mac!(MinAddI8Sent, 1);
+        $mac!(MaxAddI8Sent, 1);
+        $mac!(ProgAdd, 4);
         $mac!(P2, 2);
         $mac!(P3, 2);
         $mac!(P4, 2);
